@@ -7,6 +7,7 @@ import vgen
 from common import (cg, c_to_json, c_from_json, canon, canon_c, cdiff, call, ordered, simulate, free_nodes,
                     all_assignments)
 from framework import Prop, run_main
+from pC02 import synthetic_names
 
 
 class P(Prop):
@@ -22,8 +23,30 @@ class P(Prop):
 
     def gen_case(self):
         rng = self.rng
-        c = gen.circuit(rng, n_in=(1, 4), n_gates=(1, 8), max_arity=4, consts=rng.choice([0.0, 0.3]), dead=False,
-                        out_inputs=0.15, name=rng.choice(["top", "m1", "circ"]))
+        r = rng.random()
+        in_names, adversarial = None, 0.0
+        if r < 0.2:
+            # operand names that alias when the reader joins them with "_": and_s_s_s is both (s_s, s) and (s, s_s)
+            fam = rng.choice([["s", "s_s", "s_s_s", "s_s_s_s"], ["x", "x_y", "y", "y_z", "z"]])
+            in_names = rng.sample(fam, rng.randint(2, len(fam)))
+        elif r < 0.35:
+            # nets named like the gates the reader synthesises for assign expressions (known finding K29)
+            in_names = rng.sample(["a", "b", "c"], rng.randint(2, 3))
+            adversarial = 0.3
+        while True:
+            c = gen.circuit(rng, n_in=(1, 4), n_gates=(1, 8), max_arity=4, consts=rng.choice([0.0, 0.3]), dead=False,
+                            out_inputs=0.15, name=rng.choice(["top", "m1", "circ"]), in_names=in_names, adversarial=adversarial)
+            if not {"tie_0", "tie_1", "tie_x"} & set(c.graph.nodes):     # the property excludes the reader's reserved names
+                break
+        if in_names and adversarial == 0.0 and rng.random() < 0.85:
+            # two gates whose operand names join to the same string with different operand sets
+            pairs = (["s", "s_s_s_s"], ["s_s", "s_s_s"]) if "s" in fam else (["x_y", "z"], ["x", "y_z"])
+            t = rng.choice(["nand", "nor", "xnor"])
+            for k, ops in enumerate(pairs):
+                for o in ops:
+                    if o not in c.graph.nodes:
+                        c.add(o, "input")
+                c.add(f"al{k}", t, fanin=ops, output=True)
         # constants as outputs sometimes
         for n in list(c.graph.nodes):
             if c.type(n) in ("0", "1") and rng.random() < 0.3:
@@ -66,19 +89,26 @@ class P(Prop):
                 if o != "ok":
                     self.fail("search", f"to_file-raised-{o}", f"to_file raised {o}", case)
                     return
-                o, c2 = call(cg.from_file, path, None, None, bbs)
+                with synthetic_names() as made:
+                    o, c2 = call(cg.from_file, path, None, None, bbs)
+                captured = set(made) & set(c.graph.nodes)
         else:
             o, text = call(cg.io.circuit_to_verilog, c, beh)
             if o != "ok":
                 self.fail("search", f"write-raised-{o}", f"circuit_to_verilog raised {o}", case)
                 return
-            o, c2 = call(cg.io.verilog_to_circuit, text, c.name, False, bbs)
+            with synthetic_names() as made:
+                o, c2 = call(cg.io.verilog_to_circuit, text, c.name, False, bbs)
+            captured = set(made) & set(c.graph.nodes)
         self.search_cases += 1
         consts = [n for n in c.graph.nodes if c.type(n) in ("0", "1", "x")]
         unconn = any(not c.fanin(f"{i}.{p}") for i, bb in c.blackboxes.items() for p in bb.input_set) or \
             any(not c.fanout(f"{i}.{p}") for i, bb in c.blackboxes.items() for p in bb.output_set)
         tienames = any(n in ("tie_0", "tie_1", "tie_x") for n in c.graph.nodes)
         tag = (":unconnected-pin" if unconn else "") + (":reserved-name" if tienames else "")
+        if captured:
+            # a node of the circuit has exactly the name the reader gave one of its expression gates (K29)
+            tag = ":net-captures-synthetic"
         if o != "ok":
             self.fail("search", f"readback-raised-{o}" + tag, f"reading the written text back raised {o}", case)
             return
